@@ -661,9 +661,9 @@ pub fn dom_tree_atomic(scenario: &str) -> Outcome {
 // C12 / C14 after DOM edit histories (bounded stand-in material): navigational views agree; keys of attached nodes are
 // non-zero and pairwise distinct
 
-pub const EDIT_SCENARIOS: [&str; 8] = [
+pub const EDIT_SCENARIOS: [&str; 9] = [
     "move_within_parent_before", "move_within_parent_append", "move_between_parents", "remove_then_reinsert",
-    "remove_subtree_drop_then_set_attribute", "replace_child", "append_fragment_like_sequence", "split_text_then_move",
+    "remove_subtree_drop_then_set_attribute", "remove_middle_subtree_drop_then_set_attribute", "replace_child", "append_fragment_like_sequence", "split_text_then_move",
 ];
 
 pub fn dom_after_edits(scenario: &str, what: &str) -> Outcome {
@@ -729,6 +729,15 @@ pub fn dom_after_edits(scenario: &str, what: &str) -> Outcome {
                     drop(gone);
                 }
                 drop(d);
+                let _ = xml_xpath::query(doc.clone(), "//*", &mut Context::default());
+                r.set_attribute("z", "1").unwrap();
+            }
+            "remove_middle_subtree_drop_then_set_attribute" => {
+                {
+                    let gone = r.remove_child(&a).unwrap();
+                    drop(gone);
+                }
+                drop(a);
                 let _ = xml_xpath::query(doc.clone(), "//*", &mut Context::default());
                 r.set_attribute("z", "1").unwrap();
             }
